@@ -153,6 +153,8 @@ def install(reg):
             ("body-limit-chunked", "implies(old(self.body_rcv) is not None and not old(self.completed) and"
                                    " self.body_bytes_received >= self.adj.max_request_body_size, self.completed and isinst(self.error, 'RequestEntityTooLarge'))"),
             ("body-count", "implies(old(self.body_rcv) is not None and not old(self.completed), self.body_bytes_received == old(self.body_bytes_received) + result)"),
+            ("C07-chunked-content-length-is-the-decoded-length", "implies(old(self.body_rcv) is not None and not old(self.completed) and self.completed and self.error is None and self.chunked,"
+                                                                 " 'CONTENT_LENGTH' in self.headers)"),
         ],
         modifies=["self.completed", "self.empty", "self.expect_continue", "self.headers_finished", "self.header_plus", "self.chunked",
                   "self.content_length", "self.header_bytes_received", "self.body_bytes_received", "self.body_rcv", "self.version", "self.error",
